@@ -676,8 +676,12 @@ func generate(pkg *packages.Package, cf *ContractFile) (string, map[string]*Func
 	}
 	var hdr strings.Builder
 	fmt.Fprintf(&hdr, "package %s\n\nimport (\n", pkg.Types.Name())
-	seen := map[string]bool{}
+	seen := map[string]bool{"time": true}
+	fmt.Fprintf(&hdr, "\t\"time\"\n")
 	for _, imp := range cf.Imports {
+		if strings.Trim(imp, "\"") == "time" {
+			continue
+		}
 		fmt.Fprintf(&hdr, "\t%s\n", imp)
 		seen[strings.Trim(imp, "\"")] = true
 	}
